@@ -1136,6 +1136,12 @@ class Executor:
 
     def st_Assign(self, s, st):
         for s1, v in self.ev(s.value, st):
+            bad = [t for t in s.targets if isinstance(t, (ast.Tuple, ast.List)) and isinstance(v, (list, tuple)) and len(t.elts) != len(v)
+                   and not any(isinstance(e, ast.Starred) for e in t.elts)]
+            if bad:
+                # `a, b = seq` with the wrong number of items: ValueError (too many / not enough values to unpack)
+                self.pending_raise(s1, ExcVal(ValueError, line=s.lineno))
+                continue
             for t in s.targets:
                 self.assign(t, v, s1)
             yield s1, None
